@@ -2,4 +2,5 @@ package main
 
 import (
 	_ "verif/internal/props/c18"
+	_ "verif/internal/props/c20"
 )
